@@ -5,11 +5,13 @@ package c10
 
 import (
 	"context"
+	"encoding/json"
 	"fmt"
 	"math"
 	"math/rand/v2"
 	"os"
 	"strings"
+	"sync/atomic"
 	"testing"
 
 	ebu "github.com/jilio/ebu"
@@ -48,6 +50,7 @@ type flags struct{ chain3, eventResume, nonUTC bool }
 func TestC10(t *testing.T) {
 	run := vk.New("C10", "lockstep")
 	defer run.Finish()
+	defer func() { run.Count("durable_appends_with_the_reply_lost_after_commit", lostAcks.Load()) }()
 	scratch := os.Getenv("VERIF_SCRATCH")
 	if scratch == "" {
 		scratch = t.TempDir()
@@ -116,12 +119,17 @@ func TestC10(t *testing.T) {
 					doRead(ctx, rng, s, viol, fl)
 				case x < 85:
 					doStream(ctx, rng, s, viol)
-				case x < 93:
+				case x < 92:
 					doSave(ctx, rng, s, viol)
-				default:
+				case x < 98:
 					doLoad(ctx, rng, s, viol)
+				case x < 99 || s.o.LostAckNext == nil:
+					busReaders(ctx, s)
+				default:
+					lostAckAppend(ctx, rng, s, viol)
 				}
 			}
+			busReaders(ctx, ss[0]) // at least once before the final chain of reads
 			// final: the whole log by a chain of reads with varying limits, from the oldest offset
 			for _, s := range ss {
 				beyondEnd(ctx, kind, scratch, s, viol)
@@ -146,6 +154,27 @@ func TestC10(t *testing.T) {
 			}
 		}
 	}
+}
+
+// busReaders reads the store the way a bus does — a plain replay and an upcasting replay with a raw
+// upcaster registered for every stored type. Reading is not an operation of the log: every later
+// Read / ReadStream is still compared with the reference log.
+func busReaders(ctx context.Context, s *sut) {
+	bus := ebu.New(ebu.WithStore(s.o.Store), ebu.WithUpcastErrorHandler(func(string, json.RawMessage, error) {}))
+	seen := map[string]bool{}
+	for _, e := range s.ref.Events {
+		if e.Type == "" || seen[e.Type] {
+			continue
+		}
+		seen[e.Type] = true
+		to := e.Type + "\x00upcast"
+		ebu.RegisterUpcastFunc(bus, e.Type, to, func(json.RawMessage) (json.RawMessage, string, error) {
+			return json.RawMessage(`{"rewritten":true}`), to, nil
+		})
+	}
+	bus.Replay(ctx, ebu.OffsetOldest, func(*ebu.StoredEvent) error { return nil })
+	bus.ReplayWithUpcast(ctx, ebu.OffsetOldest, func(*ebu.StoredEvent) error { return nil })
+	s.trace = append(s.trace, "bus.Replay + bus.ReplayWithUpcast over the store")
 }
 
 type violFn func(s *sut, rule string, origin reflog.Origin, desc string)
@@ -183,6 +212,25 @@ func doAppend(ctx context.Context, rng *rand.Rand, s *sut, viol violFn, fl *flag
 	s.lastApp = off
 	if c, old := s.ref.Learn(off, p, reflog.FromAppend); c {
 		viol(s, "append-offset-reused", "", fmt.Sprintf("Append returned %q which already denoted position %d (now %d)", off, old, p))
+	}
+}
+
+// lostAckAppend (durable-streams): the server commits the append, the reply is lost (503). Whatever
+// the client makes of that, the event is in the log exactly once: every later read is compared with
+// a reference log that contains it once.
+var lostAcks atomic.Int64
+
+func lostAckAppend(ctx context.Context, rng *rand.Rand, s *sut, viol violFn) {
+	e := reflog.Ev{Type: jgen.TypeString(rng), Data: jgen.Doc(rng, true), Time: jgen.Timestamp(rng)}
+	s.o.LostAckNext(1)
+	off, err := s.o.Store.Append(ctx, &ebu.Event{Type: e.Type, Data: e.Data, Timestamp: e.Time})
+	s.o.LostAckNext(0)
+	s.trace = append(s.trace, fmt.Sprintf("Append(type=%q data=%.40q) with the reply lost after the commit -> %q err=%v", clip(e.Type), string(e.Data), off, err))
+	p := s.ref.Append(e)
+	lostAcks.Add(1)
+	if err == nil && off != "" {
+		s.lastApp = off
+		s.ref.Learn(off, p, reflog.FromAppend)
 	}
 }
 
